@@ -228,5 +228,20 @@ PROPS['C03'] = dict(
          U('extended_n3', 'C03_filtration.cpp', ['VP_MODE=3', 'VP_N=3', 'VP_VMAX=2'], weight=8),
          U('order_n4', 'C03_filtration.cpp', ['VP_MODE=0', 'VP_N=4', 'VP_VMAX=1'], tiers=['thorough'], weight=40), U('monotonise_n4', 'C03_filtration.cpp', ['VP_MODE=1', 'VP_N=4', 'VP_VMAX=1'], tiers=['thorough'], weight=30), U('prune_n4', 'C03_filtration.cpp', ['VP_MODE=2', 'VP_N=4', 'VP_VMAX=1'], tiers=['thorough'], weight=30), U('extended_n4', 'C03_filtration.cpp', ['VP_MODE=3', 'VP_N=4', 'VP_VMAX=1'], tiers=['thorough'], weight=30)])
 
+# ------------------------------------------------------------------------------------------------ C15
+_u15 = [U('st_copy_move_opt%d' % o, 'C15_st.cpp', ['VP_OPT=%d' % o, 'VP_N=3'], weight=8, must_reach=['end', 'copy-ctor', 'copy-assign', 'self-assign', 'move-ctor', 'move-assign', 'swap']) for o in (0, 1, 2, 3)]
+_u15 += [U('st_serial_opt%d' % o, 'C15_st.cpp', ['VP_OPT=%d' % o, 'VP_N=3', 'VP_SERIAL'], weight=6, must_reach=['end', 'serialize', 'wrong-length']) for o in (0, 1, 2, 3)]
+_u15 += [U('st_serial_short_kf', 'C15_st.cpp', ['VP_OPT=0', 'VP_N=3', 'VP_SERIAL', 'VP_KF_SHORT'], weight=6, must_reach=[], kf='C15-deserialize-short-buffer')]
+for fl in range(1, 3):
+    for col, z2 in (('INTRUSIVE_SET', 1), ('LIST', 1), ('HEAP', 1)) if fl == 1 else (('INTRUSIVE_SET', 1), ('INTRUSIVE_LIST', 0), ('VECTOR', 1)):
+        _u15.append(_pm('C15_matrix.cpp', 'mat_%s_%s' % (_FL[fl], col.lower()), col=col, z2=z2, flavour=fl, rows=1 if col not in ('HEAP',) else 0, removable=1, rep=1 if fl == 1 else 0, m=4, weight=6, must=('end', 'copy-ctor', 'copy-assign', 'self-assign', 'move-ctor', 'move-assign', 'swap', 'mutate-source', 'mutate-copy')))
+_kf15 = _pm('C15_matrix.cpp', 'mat_ru_moved_from_kf', flavour=1, removable=1, rep=1, m=4, extra=['VP_KF_MOVED'], weight=4, must=()); _kf15['kf'] = 'C15-moved-from-matrix'; _u15.append(_kf15)
+_kf15b = _pm('C15_matrix.cpp', 'mat_ru_zp_moved_from_kf', col='LIST', z2=0, flavour=1, removable=1, rep=1, m=4, extra=['VP_KF_MOVED'], weight=4, must=()); _kf15b['kf'] = 'C15-moved-from-matrix'; _u15.append(_kf15b)
+PROPS['C15'] = dict(
+  explanation='Bounded symbolic execution of the real copy/move constructors, assignments (incl. self-assignment onto and from non-empty trees/matrices), swap, serialize/deserialize (clang IR of the headers in /repo): source and target states come from symbolic operation histories, the copy is compared with the source observationally, then both are mutated by further symbolic operations and one is destroyed while the other is re-observed against its own model. The engine\'s byte-level memory model (every load/store must fall inside one live object; exact-size serialisation buffers; use-after-free, double free, invalid free detection) decides the memory-safety clause in this and in every other check.',
+  bounds=dict(quick='Simplex_tree: n=3 labels, histories of 2+1+1 operations, 4 option sets, 6 ways of copying/moving, serialisation with buffer length perturbations -8..+8; matrices: base/boundary/RU/chain flavours with pool allocators, 4-cell filtrations', thorough='n=4 labels'),
+  outside=['text round trip through operator<< / operator>> (libstdc++ iostream/locale is machine code)', 'independent objects used from different threads (the engine is sequential)', 'uninitialised-value tracking (not implemented in the engine)'],
+  units=_u15)
+
 NOT_APPLICABLE = {}
 NOTES = 'Clauses outside every claim: real thread schedules/TBB execution (engine is sequential), iostream text I/O, GMP arbitrary precision, Eigen-based Coxeter point location under general affine maps, SIMD paths of boost::unordered_flat_map (compiled with -U__SSE2__), allocation failure, inputs beyond the stated bounds.'
